@@ -76,6 +76,7 @@ type rsDgram struct {
 	ip      []byte // IP payload: transport header + payload
 	cuts    [][]rsFrag
 	injs    []rsInj
+	df      bool // its fragments carry the don't-fragment bit as well (RFC 791 copies the flag into every fragment)
 	lastDel int // seq of the last delivery (0 = none)
 	ndel    int
 	ident   uint16
@@ -176,8 +177,13 @@ func (w *reasmWorld) newDgram(r *sim.Rand, near *rsDgram) *rsDgram {
 			d.ident = uint16(0x7000 + d.uid)
 			d.ip = codec.EncodeEcho([]byte(d.src), []byte(d.dst), false, false, d.ident, uint16(d.uid), d.payload)
 		}
+		d.df = r.Chance(0.2)
 		for c := r.Range(1, 2); c > 0; c-- {
-			d.cuts = append(d.cuts, rsCut(r, len(d.ip), r.Range(2, 6)))
+			k := r.Range(2, 6)
+			if r.Chance(0.2) {
+				k = r.Range(16, 40) // many small fragments: the reassembler's hole list grows past its first allocation
+			}
+			d.cuts = append(d.cuts, rsCut(r, len(d.ip), k))
 		}
 		w.dgrams = append(w.dgrams, d)
 		w.owner[k] = d.uid
@@ -192,7 +198,10 @@ func (w *reasmWorld) inject(d *rsDgram, f rsFrag, pad int) {
 	if w.owner[k] != d.uid {
 		return // the key has been taken over by a newer datagram: this one is retired
 	}
-	pkt := codec.IPv4([]byte(d.src), []byte(d.dst), d.proto, d.id, 64, false, f.more, f.off, d.ip[f.off:f.off+f.n])
+	pkt := codec.IPv4([]byte(d.src), []byte(d.dst), d.proto, d.id, 64, d.df, f.more, f.off, d.ip[f.off:f.off+f.n])
+	if d.df {
+		w.Probes["fragments_carrying_df"]++
+	}
 	for i := 0; i < pad; i++ {
 		pkt = append(pkt, byte(0xe0+i))
 	}
